@@ -394,3 +394,127 @@ def fam_macro(tier):
         g.add('expansion', b'mixed @F() { return %d; }' % val)
         g.add('if', b'mixed @F() {\n' + body + b'\n}')
         yield g
+
+
+# ------------------------------------------------------------------ containers: construction, growth, sizeof
+@family('container')
+def fam_container(tier):
+    # a mapping built in different ways must be the same mapping (sizes around the 8-slot table / 80 % fill / doubling)
+    for n in (0, 1, 2, 5, 6, 7, 8, 9, 12, 13, 14, 16, 17, 33, 64, 65, 130):
+        for keykind in ('int', 'str', 'mix', 'bigint'):
+            def key(k, kk=keykind):
+                if kk == 'int':
+                    return k
+                if kk == 'str':
+                    return b'k%d' % k
+                if kk == 'bigint':
+                    return wrap((k - 3) * (1 << 32) + k)
+                return k if k % 2 else b'k%d' % k
+            m = {key(k): k * k for k in range(n)}
+            K = {'int': b'k', 'str': b'("k" + k)', 'bigint': b'((k - 3) * 4294967296 + k)', 'mix': b'((k % 2) ? k : ("k" + k))'}[keykind]
+            g = Group('container', 'mapping-build', keykind, ('V', canon([dict(m), n])), b'mapping of %d %s keys' % (n, keykind.encode()))
+            N = b'i%d' % n
+            g.add('index-assign', b'mixed @F(int n) { mapping m = ([]); int k; for (k = 0; k < n; k++) m[' + K + b'] = k * k; return ({ m, sizeof(m) }); }', N)
+            if n <= 20:
+                g.add('literal', b'mixed @F() { mapping m = ' + lit(m) + b'; return ({ m, sizeof(m) }); }')
+                g.add('global-literal', b'mixed @F() { gmap = ' + lit(m) + b'; return ({ gmap, sizeof(gmap) }); }')
+            g.add('addeq', b'mixed @F(int n) { mapping m = ([]); int k; for (k = 0; k < n; k++) m += ([ ' + K + b': k * k ]); return ({ m, sizeof(m) }); }', N)
+            g.add('add', b'mixed @F(int n) { mapping m = ([]); int k; for (k = 0; k < n; k++) m = m + ([ ' + K + b': k * k ]); return ({ m, sizeof(m) }); }', N)
+            g.add('add-left', b'mixed @F(int n) { mapping m = ([]); int k; for (k = 0; k < n; k++) m = ([ ' + K + b': k * k ]) + m; return ({ m, sizeof(m) }); }', N)
+            g.add('reverse-order', b'mixed @F(int n) { mapping m = ([]); int k; for (k = n - 1; k >= 0; k--) m[' + K + b'] = k * k; return ({ m, sizeof(m) }); }', N)
+            g.add('overwrite', b'mixed @F(int n) { mapping m = ([]); int k; for (k = 0; k < n; k++) m[' + K + b'] = 0; for (k = 0; k < n; k++) m[' + K + b'] = k * k; return ({ m, sizeof(m) }); }', N)
+            g.add('delete-readd', b'mixed @F(int n) { mapping m = ([]); int k; for (k = 0; k < n; k++) m[' + K + b'] = k * k; for (k = 0; k < n; k += 2) map_delete(m, ' + K + b'); for (k = 0; k < n; k += 2) m[' + K + b'] = k * k; return ({ m, sizeof(m) }); }', N)
+            g.add('halves', b'mixed @F(int n) { mapping m = ([]); mapping h = ([]); int k; for (k = 0; k < n; k++) { if (k % 2) m[' + K + b'] = k * k; else h[' + K + b'] = k * k; } m = m + h; return ({ m, sizeof(m) }); }', N)
+            g.add('lookup-rebuild', b'mixed @F(int n) { mapping m = ([]); mapping r = ([]); int k; for (k = 0; k < n; k++) m[' + K + b'] = k * k; for (k = 0; k < n; k++) r[' + K + b'] = m[' + K + b']; return ({ r, sizeof(m) }); }', N)
+            g.add('global', b'mixed @F(int n) { int k; gmap = ([]); for (k = 0; k < n; k++) gmap[' + K + b'] = k * k; return ({ gmap, sizeof(gmap) }); }', N)
+            yield g
+    # arrays built in different ways
+    for n in (0, 1, 2, 3, 8, 9, 255, 256, 257):
+        arr = list(range(n))
+        g = Group('container', 'array-build', 'a', ('V', canon([arr[:12], n])), b'array of %d elements' % n)
+        N = b'i%d' % n
+        g.add('addeq', b'mixed @F(int n) { mixed *a = ({}); int k; for (k = 0; k < n; k++) a += ({ k }); return ({ a[0 .. 11], sizeof(a) }); }', N)
+        g.add('add', b'mixed @F(int n) { mixed *a = ({}); int k; for (k = 0; k < n; k++) a = a + ({ k }); return ({ a[0 .. 11], sizeof(a) }); }', N)
+        g.add('allocate', b'mixed @F(int n) { mixed *a = allocate(n); int k; for (k = 0; k < n; k++) a[k] = k; return ({ a[0 .. 11], sizeof(a) }); }', N)
+        g.add('prepend', b'mixed @F(int n) { mixed *a = ({}); int k; for (k = n - 1; k >= 0; k--) a = ({ k }) + a; return ({ a[0 .. 11], sizeof(a) }); }', N)
+        g.add('range-append', b'mixed @F(int n) { mixed *a = ({}); int k; for (k = 0; k < n; k++) a[<0 ..] = ({ k }); return ({ a[0 .. 11], sizeof(a) }); }', N)
+        if n <= 9:
+            g.add('literal', b'mixed @F() { mixed *a = ' + lit(arr) + b'; return ({ a[0 .. 11], sizeof(a) }); }')
+        g.add('global', b'mixed @F(int n) { int k; ga = ({}); for (k = 0; k < n; k++) ga += ({ k }); return ({ ga[0 .. 11], sizeof(ga) }); }', N)
+        yield g
+    # strings built in different ways
+    for n in (0, 1, 2, 99, 100, 101, 999, 1000, 1001, 4096):
+        s = (b'abcdefghij' * (n // 10 + 1))[:n]
+        g = Group('container', 'string-build', 's', ('V', canon([s[:12], s[-3:] if n >= 3 else s, n])), b'string of %d characters' % n)
+        N = b'i%d' % n
+        tail = b'return ({ s[0 .. 11], (strlen(s) >= 3) ? s[<3 ..] : s, strlen(s) }); }'
+        g.add('addeq', b'mixed @F(int n) { string s = ""; int k; for (k = 0; k < n; k++) s += "abcdefghij"[k % 10 .. k % 10]; ' + tail, N)
+        g.add('add', b'mixed @F(int n) { string s = ""; int k; for (k = 0; k < n; k++) s = s + "abcdefghij"[k % 10 .. k % 10]; ' + tail, N)
+        g.add('char-assign', b'mixed @F(int n) { string s = ""; int k; for (k = 0; k < n; k++) { s += "?"; s[k] = \'a\' + k % 10; } ' + tail, N)
+        g.add('range-append', b'mixed @F(int n) { string s = ""; int k; for (k = 0; k < n; k++) s[<0 ..] = "abcdefghij"[k % 10 .. k % 10]; ' + tail, N)
+        g.add('global', b'mixed @F(int n) { string s; int k; gs = ""; for (k = 0; k < n; k++) gs += "abcdefghij"[k % 10 .. k % 10]; s = gs; ' + tail, N)
+        g.add('mixed-addeq', b'mixed @F(int n) { mixed s = ""; int k; for (k = 0; k < n; k++) s += "abcdefghij"[k % 10 .. k % 10]; ' + tail, N)
+        yield g
+    # sizeof
+    for c in CONTS + MAPS + [0, 7, 0.5]:
+        t = tname(c)
+        ref = ('V', canon(len(c))) if t in 'sabm' else None
+        g = Group('container', 'sizeof', t, ref, b'sizeof(' + lit(c)[:40] + b')')
+        g.add('runtime', b'mixed @F() { mixed c = ' + lit(c) + b'; return sizeof(c); }')
+        g.add('folded', b'mixed @F() { return sizeof(' + lit(c) + b'); }')
+        g.add('global', b'mixed @F() { gm = ' + lit(c) + b'; return sizeof(gm); }')
+        if t == 's':
+            g.add('strlen', b'mixed @F() { string c = ' + lit(c) + b'; return strlen(c); }')
+        yield g
+    # array and mapping sharing: assignment shares, + copies
+    g = Group('container', 'sharing', 'a', ('V', canon([[9, 2], [9, 2], [1, 2, 3], [1, 2]])), b'b = a; b[0] = 9; c = a + ({3}) ...')
+    g.add('local', b'mixed @F() { mixed *a = ({ 1, 2 }); mixed *b, *c, *d; d = a + ({}); b = a; c = a + ({ 3 }); b[0] = 9; return ({ a, b, c, d }); }')
+    g.add('global', b'mixed @F() { mixed *b, *c, *d; ga = ({ 1, 2 }); d = ga + ({}); b = ga; c = ga + ({ 3 }); b[0] = 9; return ({ ga, b, c, d }); }')
+    g.add('param', b'mixed @F_h(mixed *b) { b[0] = 9; return b; }\nmixed @F() { mixed *a = ({ 1, 2 }); mixed *b, *c, *d; d = a + ({}); c = a + ({ 3 }); b = @F_h(a); return ({ a, b, c, d }); }')
+    yield g
+    g = Group('container', 'sharing', 'm', ('V', canon([{1: 9}, {1: 9}, {1: 2, 3: 4}])), b'mapping b = a; b[1] = 9; c = a + ([3:4])')
+    g.add('local', b'mixed @F() { mapping a = ([ 1: 2 ]); mapping b, c; c = a + ([ 3: 4 ]); b = a; b[1] = 9; return ({ a, b, c }); }')
+    g.add('global', b'mixed @F() { mapping b, c; gmap = ([ 1: 2 ]); c = gmap + ([ 3: 4 ]); b = gmap; b[1] = 9; return ({ gmap, b, c }); }')
+    yield g
+    g = Group('container', 'sharing', 's', ('V', canon([b'ab', b'Xb'])), b'string b = a; b[0] = \'X\'')
+    g.add('local', b'mixed @F() { string a = "ab"; string b; b = a; b[0] = \'X\'; return ({ a, b }); }')
+    g.add('global', b'mixed @F() { string b; gs = "ab"; b = gs; b[0] = \'X\'; return ({ gs, b }); }')
+    g.add('param', b'mixed @F(string a) { string b; b = a; b[0] = \'X\'; return ({ a, b }); }', carg(b'ab'))
+    g.add('literal-twice', b'mixed @F() { string a = "ab"; string b = "ab"; b[0] = \'X\'; return ({ a, b }); }')
+    yield g
+
+
+# ------------------------------------------------------------------ assignment to a variable declared int / float (declared-type conversions)
+@family('typedassign')
+def fam_typedassign(tier):
+    # the manual: "the type information is completely ignored ... it is actually possible to store a number in a string
+    # variable"; the value stored and the value of the expression must not depend on how the computation is spelled
+    for x in (0, 1, -1, 7, 1 << 32):
+        for y in (0.5, -0.5, 1.5, -1.5, 3.0):
+            for op in ('+', '-', '*', '/'):
+                o = op.encode()
+                g = Group('typedassign', OPNAME[op], 'if', None, b'int x = ' + lit(x) + b'; float y = ' + lit(y) + b'; x ' + o + b'= y')
+                A = carg(x) + b' ' + carg(y)
+                g.add('assign', b'mixed @F(int x, float y) { x = x ' + o + b' y; return x; }', A)
+                g.add('opassign', b'mixed @F(int x, float y) { x ' + o + b'= y; return x; }', A)
+                g.add('opassign-literal', b'mixed @F(int x) { x ' + o + b'= ' + lit(y) + b'; return x; }', carg(x))
+                g.add('assign-literal', b'mixed @F(int x) { x = x ' + o + b' ' + lit(y) + b'; return x; }', carg(x))
+                g.add('assign-global', b'mixed @F(int x, float y) { gi = x; gi = gi ' + o + b' y; return gi; }', A)
+                g.add('opassign-global', b'mixed @F(int x, float y) { gi = x; gi ' + o + b'= y; return gi; }', A)
+                yield g
+    for y in (0.5, -0.5, 1.5, 3.0, 1e10):
+        g = Group('typedassign', 'init', 'if', None, b'int x = ' + lit(y))
+        g.add('assign', b'mixed @F(float y) { int x; x = y; return x; }', carg(y))
+        g.add('init', b'mixed @F(float y) { int x = y; return x; }', carg(y))
+        g.add('init-literal', b'mixed @F() { int x = ' + lit(y) + b'; return x; }')
+        g.add('assign-literal', b'mixed @F() { int x; x = ' + lit(y) + b'; return x; }')
+        g.add('assign-global', b'mixed @F(float y) { gi = y; return gi; }', carg(y))
+        yield g
+    for v in (0, 7, -1, 1 << 32, INT_MAX):
+        g = Group('typedassign', 'init', 'fi' + (':i64' if big(v) else ''), None, b'float x = ' + lit(v))
+        g.add('assign', b'mixed @F(int y) { float x; x = y; return x; }', carg(v))
+        g.add('init', b'mixed @F(int y) { float x = y; return x; }', carg(v))
+        g.add('init-literal', b'mixed @F() { float x = ' + lit(v) + b'; return x; }')
+        g.add('assign-literal', b'mixed @F() { float x; x = ' + lit(v) + b'; return x; }')
+        g.add('assign-global', b'mixed @F(int y) { gf = y; return gf; }', carg(v))
+        yield g
